@@ -21,6 +21,9 @@ FEATS = [
     # nested suspensions: conditional auxes on several frames of one chain, the lower ones started first
     # (vf.flo.gen.nested_condaux_program)
     dict(family="nested"),
+    # one original aux as the conditional aux of two sibling frames, re-used after it was forced out or completed
+    # (vf.flo.gen.shared_condaux_program)
+    dict(family="shared"),
 ]
 
 
